@@ -6,6 +6,7 @@ import (
 	"os"
 	"path/filepath"
 	"sort"
+	"strconv"
 	"testing"
 
 	"github.com/sarchlab/akita/v5/hooking"
@@ -32,13 +33,25 @@ import (
 // cut lies between two time steps).
 
 const (
-	c29CkptOneIn    = 3
+	c29CkptOneIn    = 4
 	c29BuildID      = "verif-nocchk-c29"
 	c29WorkerCases  = 12 // resume jobs served by one child process before it is replaced
 	sigCkptDiffers  = "ckpt-vs-uninterrupted:"
 	sigCkptPrefix   = "ckpt:"
 	c29CkptMaxSteps = 1 << 20
 )
+
+// ckptOneIn: every n-th case (in expectation) gets a checkpoint leg; the
+// environment variable VERIF_C29_CKPT_ONE_IN overrides the default (0 = none;
+// used to measure the cost of the leg).
+func ckptOneIn() int {
+	if v := os.Getenv("VERIF_C29_CKPT_ONE_IN"); v != "" {
+		if n, err := strconv.Atoi(v); err == nil {
+			return n
+		}
+	}
+	return c29CkptOneIn
+}
 
 // ckptSpec: where to cut and how the simulation is assembled.
 type ckptSpec struct {
@@ -192,13 +205,22 @@ type ckptLeg struct {
 	n      int
 }
 
+// newCkptLeg: the scratch directory holds the checkpoint archive and the two
+// SQLite output files every simulation.Simulation creates. Creating those on
+// a disk costs 50-400 ms per simulation (two per case), on tmpfs a fifth of
+// that, so the directory is made under /dev/shm when that is writable and
+// under $VERIF_WORK (or the test's temp dir) otherwise; it is removed by close.
 func newCkptLeg(t testing.TB, s *kit.Session) *ckptLeg {
-	dir := os.Getenv("VERIF_WORK")
-	if dir == "" {
-		dir = t.TempDir()
+	name := fmt.Sprintf("verif-nocchk-c29ckpt-%d", os.Getpid())
+	dir := filepath.Join("/dev/shm", name)
+	if os.Getenv("VERIF_NO_SHM") != "" || os.MkdirAll(dir, 0o755) != nil {
+		dir = os.Getenv("VERIF_WORK")
+		if dir == "" {
+			dir = t.TempDir()
+		}
+		dir = filepath.Join(dir, name)
+		_ = os.MkdirAll(dir, 0o755)
 	}
-	dir = filepath.Join(dir, fmt.Sprintf("c29ckpt-%d", os.Getpid()))
-	_ = os.MkdirAll(dir, 0o755)
 	return &ckptLeg{s: s, dir: dir, worker: &c03Worker{perProcess: c29WorkerCases}}
 }
 
